@@ -63,3 +63,5 @@ LEVEL_TEXT = ("Theorems c18_refines/c18_run prove, for every action sequence, th
               "text, cursor and mode after every action.")
 LEVEL_NOTE = ("Trusted: Lean kernel + propext/Classical.choice/Quot.sound; the hand-written model of query.rs is tied to the code only by the "
               "differential correspondence (generated alphabet with a shared char classification table); char::is_alphanumeric/is_whitespace are parameters.")
+
+TECHNIQUE += " + translator tie: fourteen editing methods and the dispatch of Query::handle translated from src/query.rs into stack programs whose interpretation is proved equal to the model's actions (Props/QueryOpsTables.lean)"
